@@ -14,9 +14,20 @@ use crate::output::Digits;
 
 use super::BigInt;
 
-#[derive(Clone, Debug, PartialEq, Eq, PartialOrd, Ord, Serialize, Deserialize, Hash)]
+#[derive(Clone, Debug, PartialEq, Eq, PartialOrd, Ord, Serialize, Deserialize)]
 pub struct BigRat {
     inner: NumRat,
+}
+
+impl std::hash::Hash for BigRat {
+    fn hash<H: std::hash::Hasher>(&self, state: &mut H) {
+        // num_rational's Hash recurses once per continued fraction term,
+        // which overflows the stack for numbers with tens of thousands of
+        // digits. A BigRat is always in lowest terms, so hashing the two
+        // parts agrees with Eq.
+        self.inner.numer().hash(state);
+        self.inner.denom().hash(state);
+    }
 }
 
 impl BigRat {
